@@ -29,6 +29,23 @@ theorem dec12_ser12 (es : List Nat) (h : packable12 es) : dec12 (ser12 es) = es 
     · omega
     · congr 1; omega
 
+theorem ser12_allBytes (es : List Nat) (h : packable12 es) : allBytes (ser12 es) := by
+  fun_induction ser12 es with
+  | case1 => intro b hb; simp at hb
+  | case2 e =>
+    have he := h e (by simp)
+    intro b hb; simp at hb; rcases hb with rfl | rfl <;> omega
+  | case3 e0 e1 rest ih =>
+    have h0 := h e0 (by simp); have h1 := h e1 (by simp)
+    have := ih (fun x hx => h x (by simp [hx]))
+    intro b hb
+    simp only [List.mem_cons] at hb
+    rcases hb with rfl | rfl | rfl | hb
+    · omega
+    · rw [orNib _ _ (by omega)]; omega
+    · omega
+    · exact this b hb
+
 /-- decode then serialise: a table whose length is a multiple of 3 is reproduced byte for byte -/
 theorem ser12_dec12 (bs : List Nat) (hb : allBytes bs) (h3 : bs.length % 3 = 0) :
     ser12 (dec12 bs) = bs := by
